@@ -204,7 +204,7 @@ _WORLD = {}
 
 def _job(job):
     from sa.src import Source
-    root, overlay, prop, rule, fam, shape, n, sch, extra, chunk = job
+    root, overlay, prop, rule, fam, shape, n, sch, extra, chunk, halve = job
     key = (root, tuple(sorted(overlay.items())), extra)
     if _WORLD.get("key") != key:
         src = Source(root, overlay)
@@ -220,7 +220,7 @@ def _job(job):
         _WORLD.update(key=key, h=h, xo=xo)
     col = hist._Collector()
     try:
-        k = run_one(_WORLD["h"], col, prop, rule, fam, shape, n, sch, _WORLD["xo"], chunk)
+        k = run_one(_WORLD["h"], col, prop, rule, fam, shape, n, sch, _WORLD["xo"], chunk, halve)
     except Unknown as u:
         col.undecide(f"scale engine, {shape} n={n} / {sch}: {u}")
         k = 0
@@ -230,7 +230,10 @@ def _job(job):
     return k, col.calls
 
 
-def run_one(h, res, prop, rule, fam, shape, n, sch, extra_observers, chunk):
+BIG = 24
+
+
+def run_one(h, res, prop, rule, fam, shape, n, sch, extra_observers, chunk, halve=False):
     C = c04.consts(h)
     plan = GS.plan(shape, n)
     more, pairs, starts = [], (), ()
@@ -275,6 +278,8 @@ def run_one(h, res, prop, rule, fam, shape, n, sch, extra_observers, chunk):
                               f"history [{describe(mu)}]: {o.name} {_diff(got, want)}", replay=replay(fam, shape, n, sch, mu, o))
 
     MUT = scale_mutators(h, shape, n)
+    if halve:
+        MUT = MUT[n % 2::2]
     todo = [None] + MUT
     if chunk is not None:
         todo = todo[chunk[0]::chunk[1]]
@@ -335,10 +340,13 @@ def run(ctx, res, prop, rule="SCALE", extra=None, shapes=("hub", "par", "deep"),
     sizes = list(sizes) if sizes is not None else common.scale_sizes(ctx, res)
     root, overlay = str(ctx.src.root), dict(ctx.src.overlay)
     from rules.common import HUB_CAP
-    base = [(root, overlay, prop, rule, "plain", shape, n, sch, extra) for shape in shapes for n in sizes for sch in schedules if shape == "deep" or n <= HUB_CAP + 1]
+    # beyond BIG the quick tier keeps the cost down: caching on only (a cold memo is computed, a warm one served), and the sizes c and
+    # c + 1 share the mutators between them (even / odd positions)
+    base = [(root, overlay, prop, rule, "plain", shape, n, sch, extra) for shape in shapes for n in sizes for sch in schedules
+            if (shape == "deep" or n <= HUB_CAP + 1) and (ctx.thorough or n <= BIG or sch == "on")]
     cpus = min(os.cpu_count() or 1, 16)
     k = max(1, -(-cpus // max(1, len(base))))
-    jobs = [j + ((i, k),) for j in base for i in range(k)]
+    jobs = [j + ((i, k), (not ctx.thorough) and j[6] > BIG) for j in base for i in range(k)]
     nproc = min(len(jobs), cpus)
     if nproc > 1 and not os.environ.get("VERIF_HIST_SERIAL") and not mp.current_process().daemon:
         with mp.get_context("fork").Pool(nproc) as pool:
